@@ -172,6 +172,14 @@ def w_enum(acc, length, first, order_lo, order_hi, stride):
                 acc.run("sort", o_sort, {"blocks": blocks, "order": None, "preserve": pres}, True)
 
 
+def w_large(acc, n):
+    blocks = [(i * 7 + i // 5) % U_SIZE for i in range(n)]
+    for od in (None, [], ["Entry", "String"], ["ExplicitComment", "Preamble", "Entry"]):
+        for pres in (True, False):
+            acc.run("sort", o_sort, {"blocks": blocks, "order": od, "preserve": pres}, True)
+    acc.classes["large-library"] += 1
+
+
 def w_random(acc, n, seed):
     from hypothesis import strategies as st
 
@@ -197,6 +205,7 @@ def run(chk):
             else:
                 for lo, hi in harness.chunks(n_orders, 4):
                     tasks.append(("w_enum", (L, f, lo, hi, 8 if quick else 1)))
+    tasks += [("w_large", (n,)) for n in (130, 300, 1100)]
     n_rand = 12000 if quick else 300000
     shards = 8 if quick else 32
     for s in range(shards):
